@@ -176,16 +176,21 @@ VALID_SETS = {
 
 
 # ------------------------------------------------------------------------------ path summaries
-def paths_of(prog: Program, fn: FuncInfo, params: list[str] | None = None, mode: str = "value") -> list[PathSum]:
-    """Every path through `fn` (see _c16_util); what cannot be interpreted fails closed."""
+def paths_of(prog: Program, fn: FuncInfo, params: list[str] | None = None, mode: str = "value",
+             allow_opaque: bool = False) -> list[PathSum]:
+    """Every path through `fn` (see _c16_util); what cannot be interpreted fails closed.  With `allow_opaque`
+    a private call that cannot be executed in line is tolerated and listed in the path's `blind` attribute:
+    the caller must then fail closed itself wherever such a call could hide what it is looking for."""
     try:
         ex = Exec(prog, fn, bool_attrs={FLAG}, inline_all=True, max_depth=6)
         ps = ex.run(params, mode)
     except Unsupported as exc:
         raise AnalysisError(f"{fn.qual}: cannot be interpreted path by path ({exc})") from exc
     ps = [p for p in ps if p.exit != "raise"]
-    blind = sorted({c for p in ps for c in ex.opaque_private_calls(p)})
-    if blind:
+    for p in ps:
+        p.blind = ex.opaque_private_calls(p)  # type: ignore[attr-defined]
+    blind = sorted({c for p in ps for c in p.blind})  # type: ignore[attr-defined]
+    if blind and not allow_opaque:
         raise AnalysisError(f"{fn.qual}: cannot see through {blind} (not interpretable path by path)")
     if not ps:
         raise AnalysisError(f"{fn.qual}: no normal path")
@@ -848,6 +853,7 @@ CONTROLS = [
     ("select loop never entered", MOD, "        while True:\n            try:", "        while False:\n            try:", "C16.TIMER"),
     ("critical-error filter selects the non-critical errors", MOD,
      "if err.level == critical)", "if err.level != critical)", "C16.SAFE"),
+    ("back-off capped by the data-age limit", MOD, "max_duration=max_blocking_duration", "max_duration=max_data_age", "C16.WIRE"),
     ("NOT_WORKING leaves the component published as uncertain", POOLMOD,
      "                self._current_status.working.discard(component_id)\n                self._current_status.uncertain.discard(component_id)\n",
      "                self._current_status.working.discard(component_id)\n", "C16.POOL"),
@@ -857,6 +863,179 @@ CONTROLS = [
     ("pool status update not published", POOLMOD,
      "            await self._component_status_sender.send(self._current_status)\n", "            pass\n", "C16.POOL"),
 ]
+
+
+# ------------------------------------------------------------------------------ configuration wiring
+TRACKER_BASE = f"{CSMOD}:ComponentStatusTracker"
+
+
+def _ctor_params(prog: Program, cls: Any) -> list[str] | None:
+    """Constructor parameter names (without self): `__init__`, else the annotated fields of a dataclass."""
+    init = prog.resolve_method(cls, "__init__")
+    if init is not None:
+        a = init.node.args
+        return [x.arg for x in a.posonlyargs + a.args + a.kwonlyargs][1:]
+    fields = [s.target.id for s in cls.node.body if isinstance(s, ast.AnnAssign) and isinstance(s.target, ast.Name)]
+    return fields or None
+
+
+def _bind_site(call: ast.Call, params: list[str]) -> dict[str, ast.AST] | None:
+    if any(isinstance(a, ast.Starred) for a in call.args) or any(k.arg is None for k in call.keywords) \
+            or len(call.args) > len(params):
+        return None
+    out: dict[str, ast.AST] = dict(zip(params, call.args))
+    for k in call.keywords:
+        out[k.arg] = k.value  # type: ignore[index]
+    return out
+
+
+class Provenance:
+    """Which constructor parameter of the owning class a value is — followed through single-assignment locals,
+    `self.<attr>` set (once, in `__init__` only) from a constructor parameter, and parameters of private methods
+    whose every call site in the class passes the same thing."""
+
+    def __init__(self, prog: Program) -> None:
+        self.prog = prog
+
+    def of(self, e: ast.AST, fn: FuncInfo, depth: int = 0) -> str | None:
+        from ..engine.terms import single_defs
+        cls = fn.cls
+        if cls is None or depth > 4:
+            return None
+        if isinstance(e, ast.Name):
+            if e.id in fn.params[1:]:
+                if fn.name == "__init__":
+                    return e.id
+                sites = [(m, c) for m in cls.methods.values() for c in ast.walk(m.node)
+                         if isinstance(c, ast.Call) and isinstance(c.func, ast.Attribute) and u(c.func.value) == "self"
+                         and c.func.attr == fn.name]
+                got = set()
+                for m, c in sites:
+                    b = _bind_site(c, fn.params[1:])
+                    got.add(self.of(b[e.id], m, depth + 1) if b is not None and e.id in b else None)
+                return got.pop() if len(got) == 1 else None
+            d = single_defs(fn.node, [e.id])
+            return self.of(d[e.id], fn, depth + 1) if e.id in d else None
+        if isinstance(e, ast.Attribute) and u(e.value) == "self":
+            init = cls.methods.get("__init__")
+            writes = [(m, n) for m in cls.methods.values() for n in ast.walk(m.node)
+                      if isinstance(n, (ast.Assign, ast.AnnAssign, ast.AugAssign))
+                      for t in (n.targets if isinstance(n, ast.Assign) else [n.target]) if u(t) == u(e)]
+            if init is None or len(writes) != 1 or writes[0][0] is not init or isinstance(writes[0][1], ast.AugAssign) \
+                    or writes[0][1].value is None:
+                return None
+            return self.of(writes[0][1].value, init, depth + 1)
+        return None
+
+
+def check_wiring(run: Run, prog: Program) -> None:  # noqa: C901
+    """Every construction site of a component status tracker (per-component or pool) hands each constructor
+    parameter the owner's value of the same role, keyword or positional; the battery tracker uses the two
+    durations for what they are."""
+    base = prog.cls(TRACKER_BASE)
+    pool_cls = prog.cls(POOL)
+    prov = Provenance(prog)
+
+    def family(c: Any) -> bool:
+        return c is pool_cls or any(b is base for b in prog.mro(c))
+    n_sites = 0
+    for owner in list(prog.all_classes()):
+        if not owner.module.name.startswith("microgrid._power_distributing"):
+            continue
+        # classes this owner receives as constructor parameters annotated `type[<family class>]`
+        typed: dict[str, Any] = {}
+        o_init = owner.methods.get("__init__")
+        for a in (o_init.node.args.args + o_init.node.args.kwonlyargs) if o_init is not None else []:
+            if isinstance(a.annotation, ast.Subscript) and u(a.annotation.value) in ("type", "Type", "typing.Type"):
+                t2 = prog.resolve_name(owner.module, u(a.annotation.slice))
+                if t2 is not None and hasattr(t2, "methods") and family(t2):
+                    typed[a.arg] = t2
+        for fn in owner.methods.values():
+            for call in [n for n in ast.walk(fn.node) if isinstance(n, ast.Call)]:
+                callee = None
+                f = call.func
+                if isinstance(f, ast.Name) or (isinstance(f, ast.Attribute) and not u(f).startswith("self.")):
+                    head = u(f).split(".")[0]
+                    if head in owner.module.classes or head in owner.module.imports:
+                        tgt = prog.resolve_name(owner.module, u(f)) if u(f).replace(".", "").replace("_", "").isalnum() else None
+                        if tgt is not None and hasattr(tgt, "methods") and family(tgt):
+                            callee = tgt
+                if callee is None and typed and isinstance(f, (ast.Name, ast.Attribute)):
+                    callee = typed.get(prov.of(f, fn) or "")
+                if callee is None:
+                    continue
+                params = _ctor_params(prog, callee)
+                bound = _bind_site(call, params) if params is not None else None
+                if bound is None:
+                    raise AnalysisError(f"{fn.qual}: cannot bind the arguments of `{first_line_of(call)}` to {callee.qual}'s constructor")
+                n_sites += 1
+                if family(owner):
+                    run.analysed(fn.qual)
+                own = _ctor_params(prog, owner) or []
+                shared = [p for p in params if p in own]  # type: ignore[union-attr]
+                crossed = [(p, prov.of(a, fn)) for p, a in bound.items()
+                           if prov.of(a, fn) is not None and prov.of(a, fn) != p and prov.of(a, fn) in params]  # type: ignore[operator]
+                run.check(not crossed, "C16.WIRE", fn.qual, f"{callee.name}(...): no parameter receives another parameter's value",
+                          f"constructing {callee.name}: " + "; ".join(
+                              f"`{p}` receives the value the owner got as `{q}`" for p, q in crossed) +
+                          " — the two roles are swapped (e.g. the data-age limit used as blocking cap and vice versa), "
+                          "whether written positionally or by keyword", node=call, file=fn.file,
+                          instance=f"{fn.qual} -> {callee.name}: arguments not crossed")
+                for p in shared:
+                    q = prov.of(bound[p], fn) if p in bound else None
+                    if p in bound and q is None and not isinstance(bound[p], (ast.Name, ast.Attribute)):
+                        continue  # a computed value: not a forwarded configuration
+                    run.check(q == p, "C16.WIRE", fn.qual, f"{callee.name}({p}=<owner's {p}>)",
+                              f"constructing {callee.name}: `{p}` does not receive the value {owner.name} was configured "
+                              f"with as `{p}` (it gets `{u(bound[p]) if p in bound else '<default>'}`)", node=call, file=fn.file,
+                              instance=f"{fn.qual} -> {callee.name}: {p} forwarded")
+    if n_sites < 2:
+        raise AnalysisError(f"expected construction sites of the status trackers, found {n_sites}")
+    # the battery tracker consumes the two durations for what they are: its constructor is walked path by path
+    # (helpers in line), every parameter p standing for the symbol CTOR_p
+    tr = prog.cls(TR)
+    init = tr.methods.get("__init__")
+    if init is None:
+        raise AnalysisError(f"{tr.qual}: no constructor")
+    run.analysed(init.qual)
+    names = [a.arg for a in init.node.args.posonlyargs + init.node.args.args][1:]
+    paths = paths_of(prog, init, [f"CTOR_{n}" for n in names], allow_opaque=True)
+
+    def decided(bad: PathSum | None) -> PathSum | None:
+        """A path that lacks what is looked for while it calls a helper that could not be followed: no verdict."""
+        if bad is not None and bad.blind:  # type: ignore[attr-defined]
+            raise AnalysisError(f"{init.qual}: cannot see through {bad.blind} (not interpretable path by path)")  # type: ignore[attr-defined]
+        return bad
+
+    def calls_in(v: ast.AST | None, name: str) -> list[ast.Call]:
+        return [c for c in ast.walk(v) if isinstance(c, ast.Call) and u(c.func).split(".")[-1] == name] if v is not None else []
+    bad = first([p for p in paths if p.last_write("self._max_data_age") is None
+                 or text(p.last_write("self._max_data_age")) != "CTOR_max_data_age"])
+    run.check(decided(bad) is None, "C16.WIRE", init.qual, "self._max_data_age is the constructor's max_data_age",
+              "the limit the tracker compares message ages with is not the configured max_data_age (e.g. the blocking "
+              "cap)", node=init.node, file=init.file, path=wit(bad))
+    bad = None
+    for p in paths:
+        for stream in STREAMS:
+            timers = calls_in(p.last_write(stream), "Timer")
+            if not timers or any(not c.args or text(c.args[0]) != "CTOR_max_data_age" for c in timers):
+                bad = bad or p
+    run.check(decided(bad) is None, "C16.WIRE", init.qual, "data timers run with max_data_age",
+              "a stream's data-age timer is not started with the configured max_data_age (silence would be "
+              "noticed too late, or a live stream declared dead)", node=init.node, file=init.file, path=wit(bad))
+    fields = _ctor_params(prog, prog.cls(BS)) or []
+    bad = None
+    for p in paths:
+        made = calls_in(p.last_write("self._blocking_status"), "BlockingStatus")
+        if len(made) != 1 or text((_bind_site(made[0], fields) or {}).get("max_duration")) != "CTOR_max_blocking_duration":
+            bad = bad or p
+    run.check(decided(bad) is None, "C16.WIRE", init.qual, "BlockingStatus(max_duration=<max_blocking_duration>)",
+              "the back-off is not capped by the configured max_blocking_duration", node=init.node, file=init.file,
+              path=wit(bad))
+
+
+def first_line_of(node: ast.AST) -> str:
+    return u(node)[:80]
 
 
 # ------------------------------------------------------------------------------ structurally located controls
@@ -917,6 +1096,21 @@ def located_controls(prog: Program) -> list[tuple[str, str, str, str, str]]:
     hit = first([s_ for s_ in stmts(pool) if call_of(s_) is not None and u(call_of(s_).func).endswith("uncertain.discard")])  # type: ignore[union-attr]
     if hit is not None:
         out.append(_control_at("a component is not removed from the uncertain set", pool.module, hit, "pass", "C16.POOL"))
+    # wiring: at the construction site of the per-component trackers the data-age argument gets the blocking cap
+    prov = Provenance(prog)
+    for fn in pool.methods.values():
+        for call in [n for n in ast.walk(fn.node) if isinstance(n, ast.Call)]:
+            args = list(call.args) + [k.value for k in call.keywords]
+            age = [a for a in args if prov.of(a, fn) == "max_data_age"]
+            cap = [a for a in args if prov.of(a, fn) == "max_blocking_duration"]
+            if len(age) == 1 and len(cap) == 1:
+                out.append(_control_at("the trackers get the blocking cap as data-age limit", pool.module, age[0], u(cap[0]), "C16.WIRE"))
+    init = tr.methods.get("__init__")
+    hit = first([s_ for s_ in stmts(tr) if isinstance(s_, (ast.Assign, ast.AnnAssign)) and s_.value is not None
+                 and u(s_.targets[0] if isinstance(s_, ast.Assign) else s_.target) == "self._max_data_age"]) if init else None
+    if hit is not None and init is not None and "max_blocking_duration" in init.params:
+        out.append(_control_at("the tracker keeps the blocking cap as its data-age limit", tr.module, hit.value,
+                               "max_blocking_duration", "C16.WIRE"))
     return [c for c in out if c is not None]
 
 
@@ -926,6 +1120,7 @@ def run_rules(run: Run, prog: Program) -> None:
     check_change(run, prog)
     check_block(run, prog)
     check_pool(run, prog)
+    check_wiring(run, prog)
 
 
 def check(run: Run, prog: Program, tier: str) -> str:
@@ -940,8 +1135,12 @@ def check(run: Run, prog: Program, tier: str) -> str:
              "unblock on every success; block on failure unless NOT_WORKING; uncertain only as fallback")
     run.rule("C16.POOL", "the published pool status: after a status message the component is in `working` only for "
              "WORKING, in `uncertain` only for UNCERTAIN, in neither for NOT_WORKING, on every path; every update is sent")
+    run.rule("C16.WIRE", "every construction site of a status tracker gives each constructor parameter the owner's value "
+             "of the same role (keyword or positional); the battery tracker uses max_data_age for staleness and its "
+             "timers and max_blocking_duration as the back-off cap")
     run_rules(run, prog)
     run.floor("C16.POOL", 4)
+    run.floor("C16.WIRE", 9)
     run.floor("C16.SAFE", 14)
     run.floor("C16.TIMER", 15)
     run.floor("C16.CHANGE", 3)
